@@ -639,6 +639,26 @@ package badger
 //@   assert[biggest-user-key] before call HasPrefix#2 : arg0 == ret(ParseKey#2) && arg1 == prefix
 //@   assert[biggest] before call ParseKey#2 : arg0 == ret(Biggest#1)
 
+// DropPrefix: writes are blocked and drained first; every memtable (the active one included) is
+// flushed with the prefixes that actually have data, skipping the dropped keys; the levels drop
+// the same prefixes; an empty prefix list does nothing.
+//@ func (*DB).DropPrefix
+//@   props C29
+//@   light
+//@   assert[writes-blocked-first] before call filterPrefixesToDrop : called(prepareToDrop#1) && ret1(prepareToDrop#1) == nil && arg1 == prefixes
+//@   assert[memtables-flushed-with-filtered-prefixes] before call handleMemTableFlush : arg0 == db && arg2 == ret0(filterPrefixesToDrop#1)
+//@   assert[levels-drop-same-prefixes] before call dropPrefixes : arg0 == db.lc && arg1 == ret0(filterPrefixesToDrop#1) && called(stopCompactions#1)
+//@   assert[nothing-for-no-prefix] before return#1 : result == nil && len(prefixes) == 0 && !called(prepareToDrop#1)
+
+// prepareToDrop: refused in read-only mode; writes are blocked before the queued requests are
+// written out, and memtable flushing is stopped only after that.
+//@ func (*DB).prepareToDrop
+//@   props C29 C07
+//@   light
+//@   assert[block-first] before call writeRequests : called(blockWrite#1) && ret(blockWrite#1) == nil
+//@   assert[flush-stopped-after-drain] before call stopMemoryFlush : called(writeRequests#1)
+//@   assert[not-read-only] before call blockWrite : !db.opt.ReadOnly
+
 // ---- subscriptions (C32): patterns are matched against the user key ----
 
 //@ func (*publisher).publishUpdates
